@@ -38,7 +38,10 @@ NameAlphabet == {98, 49, 45, 46, SP, US, 246, 1635, 769, 128512}
 
 RECURSIVE SeqsUpTo(_, _)
 SeqsUpTo(A, n) == IF n = 0 THEN {<<>>} ELSE LET S == SeqsUpTo(A, n - 1) IN S \cup {Append(s, a) : s \in {t \in S : Len(t) = n - 1}, a \in A}
-Texts == SeqsUpTo(TextAlphabet, MaxLen)
+\* delimiter texts: closers / openers of the VCL long-string forms next to a line feed (a value that a generator might
+\* be tempted to print as a long string) - in every tier, whatever MaxLen is (seeded change C20-10)
+DelimTexts == {<<34, 125, 10>>, <<10, 34, 125>>, <<123, 34, 10>>}
+Texts == SeqsUpTo(TextAlphabet, MaxLen) \cup DelimTexts
 Names == {<<98>> \o s : s \in SeqsUpTo(NameAlphabet, 2)}             \* names that start with an ASCII letter
          \cup {<<246>>, <<246, 1635>>, <<128512, 246>>, <<75, 246, 108, 110, SP, 111>>}   \* and names without one / "Koeln o" with an umlaut
 
